@@ -1,6 +1,7 @@
 /- Line-protocol driver for the GEMINI models (C01, C02, C13, C17). -/
 import GemVerif.DriverUtil
 import GemVerif.Model.Gemini
+import GemVerif.Model.GeminiFast
 
 open GemVerif GemVerif.Drv GemVerif.Model
 
@@ -25,7 +26,13 @@ def step (t : Toks) : String :=
   | "mmd" =>
     let (Ka, _) := t.floats (n * n)
     let κ : Fin n → Fin n → Float := matOf Ka n n
-    if op == "score" then outS (mmdScore ε ovo P κ) else outG (mmdGrad ε ovo P κ)
+    -- `mmdScoreFast`/`mmdGradFast` build every table once; they equal `mmdScore`/`mmdGrad` entry for
+    -- entry for every number type, `Float` included (`Props/C02Fast.lean`: `mmdScoreFast_eq`,
+    -- `mmdGradFast_eq`, the latter for any `Inhabited` instance used by the look-up `Tab2.get`)
+    if op == "score" then outS (mmdScoreFast ε ovo P κ)
+    else
+      let G : Tab2 Float n K := mmdGradFast ε ovo P κ
+      outG G.get
   | "wass" =>
     -- emd tables: K*K pair entries then K uniform entries, each `value u[n] v[n]`
     let sz := 1 + 2 * n
